@@ -534,19 +534,20 @@ type ContractDB struct {
 	Ghosts map[string]*CType
 	Macros map[string]*Macro
 	NonNilMaps map[string]string
+	ObjInvs map[string][]Clause
 	Files  []string
 	SpecOrder []string
 }
 
 func NewContractDB() *ContractDB {
-	return &ContractDB{Funcs: map[string]*FuncContract{}, Specs: map[string]*SpecFunc{}, Sorts: map[string]bool{}, Consts: map[string]*CExpr{}, Ghosts: map[string]*CType{}, Macros: map[string]*Macro{}, NonNilMaps: map[string]string{}}
+	return &ContractDB{Funcs: map[string]*FuncContract{}, Specs: map[string]*SpecFunc{}, Sorts: map[string]bool{}, Consts: map[string]*CExpr{}, Ghosts: map[string]*CType{}, Macros: map[string]*Macro{}, NonNilMaps: map[string]string{}, ObjInvs: map[string][]Clause{}}
 }
 
 var clauseKeywords = map[string]bool{
 	"property": true, "spec": true, "axiom": true, "lemma": true, "func": true, "requires": true, "ensures": true,
 	"modifies": true, "pure": true, "inline": true, "assume": true, "loop": true, "invariant": true, "decreases": true,
 	"unroll": true, "logical": true, "sort": true, "noreturn": true, "nilable": true, "trusted": true, "alloc_bound": true,
-	"const": true, "opaque": true, "nilchecks": true, "let": true, "ghost": true, "ghostfield": true, "macro": true, "mapinv": true, "replay": true, "replayhelp": true, "atomic": true, "defines": true,
+	"const": true, "opaque": true, "nilchecks": true, "let": true, "ghost": true, "ghostfield": true, "macro": true, "mapinv": true, "replay": true, "replayhelp": true, "atomic": true, "defines": true, "objinv": true,
 }
 
 type rawClause struct {
@@ -596,6 +597,9 @@ func (db *ContractDB) LoadFile(path string) error {
 		if j := strings.IndexAny(trim, " \t("); j >= 0 {
 			first = trim[:j]
 		}
+		if first == "let" && (strings.HasSuffix(trim, " in") || strings.Contains(trim, " in ")) {
+			first = "" // expression-level let … in …, not a clause
+		}
 		if clauseKeywords[first] {
 			clauses = append(clauses, rawClause{first, strings.TrimSpace(trim[len(first):]), i + 1})
 		} else if len(clauses) > 0 {
@@ -640,6 +644,22 @@ func (db *ContractDB) LoadFile(path string) error {
 				return fmt.Errorf("%s:%d: %v", path, rc.line, err)
 			}
 			db.Macros[strings.TrimSpace(hdr[:op])] = &Macro{Params: paramNames(hdr[op+1 : len(hdr)-1]), Body: body}
+			cur, curLoop = nil, nil
+		case "objinv":
+			// objinv <pkg.Type> : <expr over self>   — representation invariant assumed for receivers of that type
+			parts := strings.SplitN(rc.text, ":", 2)
+			if len(parts) != 2 {
+				return fmt.Errorf("%s:%d: objinv Type : expr", path, rc.line)
+			}
+			e, err := ParseCExpr(parts[1])
+			if err != nil {
+				return fmt.Errorf("%s:%d: %v", path, rc.line, err)
+			}
+			tn := strings.TrimSpace(parts[0])
+			if !strings.Contains(tn, ".") {
+				tn = pkgName + "." + tn
+			}
+			db.ObjInvs[tn] = append(db.ObjInvs[tn], Clause{Expr: e, Src: strings.TrimSpace(parts[1]), Line: fmt.Sprintf("%s:%d", filepath.Base(path), rc.line)})
 			cur, curLoop = nil, nil
 		case "mapinv":
 			// mapinv nonnil <map type key> : <reason>
